@@ -20,6 +20,7 @@ import os
 import selectors
 import socket
 import socketserver
+import string
 import sys
 import typing as t
 from datetime import datetime as dt
@@ -106,8 +107,13 @@ class DechunkedInput(io.RawIOBase):
 
     def read_chunk_len(self) -> int:
         try:
-            line = self._rfile.readline().decode("latin1")
-            _len = int(line.strip(), 16)
+            line = self._rfile.readline().decode("latin1").strip()
+
+            # int() also accepts a sign, a "0x" prefix, and "_" separators.
+            if not all(c in string.hexdigits for c in line):
+                raise ValueError(line)
+
+            _len = int(line, 16)
         except ValueError as e:
             raise OSError("Invalid chunk header") from e
         if _len < 0:
